@@ -576,23 +576,19 @@ def check_frexp(res: Result, fm: Fmt, d, cname, obj):
                     why = 'wrong special-case result'
             else:
                 mg, eg = ds
-                if not (isinstance(mg, Fraction) and (isinstance(eg, Fraction) or eg in (PZERO, NZERO))):
+                fin = isinstance(mg, Fraction) and (isinstance(eg, Fraction) or eg in (PZERO, NZERO))
+                ev = num(eg) if fin else None
+                if not fin or ev.denominator != 1 or mg * pow2(int(ev)) != d:
                     why = 'm*2^e != x'
-                    if cname not in ('bare', 'ctx', 'bare<<3'):
+                    # root-cause signature
+                    if mg == conv[0][0] and not member(m, Fraction(e) if e else PZERO):
+                        why += ' (exponent not representable in the context was rounded)'
+                    elif cname not in ('bare', 'ctx', 'bare<<3'):
                         why += f' (operand {cname})'
-                else:
-                    ev = num(eg)
-                    if ev.denominator != 1 or mg * pow2(int(ev)) != d:
-                        why = 'm*2^e != x'
-                        # root-cause signature
-                        if mg == conv[0][0] and ev != e and member(m, Fraction(e) if e else PZERO) is False:
-                            why += ' (exponent not representable in the context was rounded)'
-                        elif cname not in ('bare', 'ctx', 'bare<<3'):
-                            why += f' (operand {cname})'
-                    elif not (1 <= abs(mg) < 2 or Fraction(1, 2) <= abs(mg) < 1):
-                        why = 'mantissa not normalised'
-                    elif not (member(m, mg) and member(m, eg)):
-                        why = 'part not a member of the context'
+                elif not (1 <= abs(mg) < 2 or Fraction(1, 2) <= abs(mg) < 1):
+                    why = 'mantissa not normalised'
+                elif not (member(m, mg) and member(m, eg)):
+                    why = 'part not a member of the context'
     if why is not None:
         exp_ = [sorted(w) for w in want] if want is not None else {'m,e': [show(conv[0][0]), conv[0][1]], 'ValueError allowed': may_raise}
         res.fail(f'frexp/{why}', case, expected=exp_, got=got)
